@@ -183,6 +183,54 @@ theorem restart_after_purge_preserves_reads (U : Univ) (n : Nat) (ops : List Op)
     simp only [List.mem_append, not_or] at hnew
     simp [hd, hnew.1, hnew.2]
 
+/-! ### several indexes of one retention policy share the deleted-tsid table
+
+`tsi.DropSeriesOfPolicy` labels the parts of the deleted-tsid table, walks every index of the
+policy with the same deleted set, and removes the labelled parts only when no walk reported an
+error. -/
+
+/-- the walk over the indexes of a policy: the parts of each after the walk, and whether any walk
+was refused. -/
+def purgePolicy (del : List Nat) (ixs : List (List Part)) : List (List Part) × Bool :=
+  (ixs.map (purgeParts del), OG.Gen.C13.policyPurgeForgetsOnlyWhenAllOk && ixs.any purgeRefused)
+
+/-- **purge_policy_complete**: when no index of the policy reports an error (and none carries a
+left-over purge mark, which `purge_marks_clear` guarantees for every reachable index), no part
+of any index of the policy holds a deleted tsid after the walk — only then may the shared
+deleted-tsid table be emptied. -/
+theorem purge_policy_complete (del : List Nat) (ixs : List (List Part))
+    (hm : ∀ parts ∈ ixs, ∀ p ∈ parts, p.mark = false) (hr : (purgePolicy del ixs).2 = false) :
+    ∀ parts' ∈ (purgePolicy del ixs).1, ∀ q ∈ parts', ∀ i ∈ q.ids, i ∉ del := by
+  intro parts' hp' q hq i hi
+  simp only [purgePolicy, List.mem_map] at hp'
+  obtain ⟨parts, hparts, rfl⟩ := hp'
+  obtain ⟨p, hpm, _, hc⟩ := (mem_purgeParts del parts i).1 ⟨q, hq, hi⟩
+  have hnr : purgeRefused parts = false := by
+    simp only [purgePolicy, OG.Gen.C13.policyPurgeForgetsOnlyWhenAllOk, Bool.true_and, List.any_eq_false] at hr
+    simpa using hr parts hparts
+  have hsel : p.selected = true := by
+    rw [purgeRefused_eq] at hnr
+    have hnm : p.inMerge = false := by
+      cases hx : p.inMerge
+      · rfl
+      · have : parts.any (·.inMerge) = true := List.any_eq_true.2 ⟨p, hpm, hx⟩
+        rw [hnr] at this; cases this
+    simp [selected_eq, hnm, hm parts hparts p hpm]
+  rcases hc with hc | hc
+  · rw [hsel] at hc; cases hc
+  · exact hc
+
+/-- one refused index is enough to keep the table: the walk of the policy reports it. -/
+theorem purge_policy_refused (del : List Nat) (ixs : List (List Part)) (parts : List Part) (h : parts ∈ ixs)
+    (hr : purgeRefused parts = true) : (purgePolicy del ixs).2 = true := by
+  simp only [purgePolicy, OG.Gen.C13.policyPurgeForgetsOnlyWhenAllOk, Bool.true_and, List.any_eq_true]
+  exact ⟨parts, h, hr⟩
+
+/-- two indexes, the series 1 in both; a merger holds the part of the second index: the walk is
+refused as a whole, although the first index has been rewritten. -/
+example : purgePolicy [1] [[⟨[1, 2], false, false⟩], [⟨[1], true, false⟩, ⟨[3], false, false⟩]] =
+    ([[⟨[2], false, false⟩], [⟨[1], true, false⟩, ⟨[3], false, false⟩]], true) := by decide
+
 /-! ### non-vacuity and the two ways the protocol can go wrong -/
 
 def U2 : Univ := ⟨fun _ => "m", fun k => [("host", if k = 0 then "a" else "b")]⟩
